@@ -50,6 +50,11 @@ CHECKS = {
     technique="TLA+ spec RpycAttr: decision table Decide (set of permitted outcomes per configuration x operation x name class x object shape, written from the statement) evaluated and exported by TLC with its meta-properties as ASSUMEs, plus a TLC-checked state machine of connection histories; all 10752 table cases, the hook/service/restricted-view cases and every history edge executed on real connections and compared with the table",
     text="the complete finite decision space (2^5 switches x 3 prefixes x 7 name classes x 4 shapes x 4 operations) is decided by the specification and executed case by case against the real request handlers (directly and as real HANDLE_* requests with text, bytes and non-text names), observing which attribute was actually read/written/deleted/called and which exception the peer saw; histories of opening/closing default, classic and public connections are enumerated by TLC and replayed, re-probing every open connection and DEFAULT_CONFIG after each step",
     note="names are instance attributes of plain objects; where the statement is silent (permitted plain name missing but twin present) both accesses are accepted; invalid-UTF-8 bytes names are not exercised"),
+ "C07": dict(
+    spec="RpycHostile", design="5/C07",
+    technique="TLA+ spec RpycHostile: response table Expect(template, abstract state) over ~1500 hostile message templates (every handler number, every argument label incl. forged/stale/other-connection identifiers, wrong arity, crafted reply and exception payloads, invalid message kinds) with TLC-checked meta-properties and a TLC-checked attack state machine; every (template, reachable state) pair sent as raw bytes by a frame-level peer to a real Connection in virtual time with canary / import / pickle / foreign-object / second-connection oracles",
+    text="the finite template space is decided by the specification (permitted response classes per state) and executed exhaustively against the real dispatcher under the default configuration; after every message: response class permitted, no canary callable ran, no denied attribute read, nothing pickled, no module imported, no constructor run by the exception loader, requests aimed at objects not handed to this peer never answered with a result, the process's other connection untouched; random 12-message sequences follow the state machine",
+    note="default configuration; well-framed messages only; resource exhaustion out of scope; the attacker never answers the service's own requests (virtual-time timeouts)"),
 }
 NA = {}
 
